@@ -10,7 +10,7 @@ PID = 'C03'
 SHARDS = {'quick': 8, 'thorough': 16}
 RULE = ('Systems from the C01 generator forced to contain at least one hard-core pair (HS / HCLJ / Exponential closed with unflagged PY or '
         'HNC, optionally with an explicit potential sigma, or any closure with the hard-core flag). (evaluation) trial x vectors = smooth '
-        'random fields x amplitude 1e-3..10, also sign changing and asymmetric; each closure instance is wrapped from outside to capture '
+        'random fields x amplitude 1e-3..10 (applied to x, or to gamma = x/r itself up to |gamma| = 1e3), also sign changing and asymmetric; each closure instance is wrapped from outside to capture '
         '(r, gamma_in, c_out) during PRISM.cost(x): at every grid point with r_i <= sigma (literal comparison) c_out + gamma_in = -1 '
         'within 4 ulp of max(1,|gamma|), and the same through the pipeline (own inverse DST of the stored directCorr + GammaIn) within '
         'DST round-off. (solved) converged ladder rungs: |g(r_i)| <= (|y_i| + round-off)/r_i inside the core. Non-trivial = >= 3 grid '
@@ -70,11 +70,11 @@ def core_strategy(tier):
 class Evaluation(Sub):
     name = 'evaluation'
     doc = 'arbitrary trial x: closure output captured inside cost() and the stored directCorr satisfy c + gamma_in = -1 inside every core'
-    budget = {'quick': 400, 'thorough': 48000}
+    budget = {'quick': 800, 'thorough': 48000}
 
     def strategy(self, tier):
-        return st.tuples(core_strategy(tier), specs.array_desc(6, (-3, 1)), specs.logfloat(-3, 1, 4), st.booleans()).map(
-            lambda t: dict(t[0], x=t[1], amp=t[2], symmetric=t[3]))
+        return st.tuples(core_strategy(tier), specs.array_desc(6, (-3, 1)), specs.logfloat(-3, 1, 4), st.booleans(), st.booleans()).map(
+            lambda t: dict(t[0], x=t[1], amp=t[2], symmetric=t[3], gamma_scaled=t[4]))
 
     def check(self, spec):
         P = target()
@@ -91,6 +91,9 @@ class Evaluation(Sub):
         raw = build.array(spec['x'], n * n * L)
         m = float(np.max(np.abs(raw))) or 1.0
         x = (raw / m * spec['amp']).reshape((L, n, n))
+        if spec.get('gamma_scaled'):
+            # the amplitude applies to gamma = x/r itself (up to 1e3: beyond every clipping / overflow guard one might add)
+            x = x * r.reshape((-1, 1, 1)) * 100.0
         if spec['symmetric']:
             x = 0.5 * (x + np.transpose(x, (0, 2, 1)))
         x = x.reshape(-1)
@@ -105,7 +108,13 @@ class Evaluation(Sub):
                 captured[_k] = (np.array(rr), gin, np.array(c))
                 return c
             clo.calculate = wrapped
-        S.quiet(pr.cost, x)
+        try:
+            S.quiet(pr.cost, x)
+            evaluated = True
+        except Exception as exc:   # noqa -- a huge trial gamma may overflow outside the cores and make I - Omega C singular
+            if not (isinstance(exc, (ArithmeticError, ValueError)) or type(exc).__name__ == 'LinAlgError'):
+                raise
+            evaluated = False
         hard = hard_pairs(spec)
         ref = S.reference(spec)
         npts, gmax = 0, 0.0
@@ -130,6 +139,8 @@ class Evaluation(Sub):
                              float(c[ins][m_] + gin[ins][m_]), float(gin[ins][m_])))
                 continue
             # through the pipeline: stored directCorr (Fourier) back-transformed + stored GammaIn
+            if not evaluated or not np.all(np.isfinite(pr.directCorr.data)):
+                continue
             for (a, b) in ((i, j), (j, i)):
                 c_st = S.to_real(ref, np.array(pr.directCorr.data[:, a, b]))
                 g_st = np.array(pr.GammaIn.data[:, i, j])
@@ -143,7 +154,7 @@ class Evaluation(Sub):
         for kk in hard:
             out.label('hard=' + spec['closure'][kk][0] + ('+flag' if spec['closure'][kk][1] else '') + '/' + spec['potential'][kk][0]
                       + ('/explicit-sigma' if len(spec['potential'][kk]) > 2 else ''))
-        out.label('amp>1' if spec['amp'] > 1 else 'amp<=1')
+        out.label('amp>1' if spec['amp'] > 1 else 'amp<=1', 'max|gamma|>50' if gmax > 50 else 'max|gamma|<=50')
         return out
 
 
